@@ -29,6 +29,7 @@
 // failing inputs as protocol lines (`fail <op line>`), then `exh cases=.. fails=..`.
 #include <algorithm>
 #include <cassert>
+#include <deque>
 #include <functional>
 #include <iterator>
 #include <stdexcept>
@@ -237,6 +238,130 @@ static void check_inputs(const Runs& runs, const Store& st, std::vector<std::str
             }
 }
 
+// ------------------------------------------------------------------ other iterator categories / storage layouts
+// The same call over runs that are NOT contiguous arrays in iterator direction.  Results must equal the ones of the
+// bounds-checked iterator over vectors (which the oracle judges); reads outside a run hit guards / other runs /
+// ASan red zones.
+//   rev     std::reverse_iterator over slices of ONE backing vector (all runs stored back to front, adjacent)
+//   deque   one std::deque per run, front-padded so that a 512-byte block boundary (32 Val) falls inside the run
+//   strided user-defined random-access iterator visiting every second element; guards in between
+template <typename T>
+class StrideIt {
+    T* p_;
+public:
+    using iterator_category = std::random_access_iterator_tag;
+    using value_type = T;
+    using difference_type = std::ptrdiff_t;
+    using pointer = T*;
+    using reference = T&;
+    StrideIt() : p_(nullptr) {}
+    explicit StrideIt(T* p) : p_(p) {}
+    reference operator*() const { return *p_; }
+    pointer operator->() const { return p_; }
+    reference operator[](difference_type n) const { return p_[2 * n]; }
+    StrideIt& operator++() { p_ += 2; return *this; }
+    StrideIt operator++(int) { StrideIt t = *this; p_ += 2; return t; }
+    StrideIt& operator--() { p_ -= 2; return *this; }
+    StrideIt operator--(int) { StrideIt t = *this; p_ -= 2; return t; }
+    StrideIt& operator+=(difference_type n) { p_ += 2 * n; return *this; }
+    StrideIt& operator-=(difference_type n) { p_ -= 2 * n; return *this; }
+    friend StrideIt operator+(StrideIt a, difference_type n) { return StrideIt(a.p_ + 2 * n); }
+    friend StrideIt operator+(difference_type n, StrideIt a) { return StrideIt(a.p_ + 2 * n); }
+    friend StrideIt operator-(StrideIt a, difference_type n) { return StrideIt(a.p_ - 2 * n); }
+    friend difference_type operator-(StrideIt a, StrideIt b) { return (a.p_ - b.p_) / 2; }
+    friend bool operator==(StrideIt a, StrideIt b) { return a.p_ == b.p_; }
+    friend bool operator!=(StrideIt a, StrideIt b) { return a.p_ != b.p_; }
+    friend bool operator<(StrideIt a, StrideIt b) { return a.p_ < b.p_; }
+    friend bool operator>(StrideIt a, StrideIt b) { return a.p_ > b.p_; }
+    friend bool operator<=(StrideIt a, StrideIt b) { return a.p_ <= b.p_; }
+    friend bool operator>=(StrideIt a, StrideIt b) { return a.p_ >= b.p_; }
+};
+
+static bool g_alt_layouts = true;      // off in the exhaustive enumeration (time)
+static Val mkval(ll x) { Val v; v.v = x; return v; }
+static_assert(sizeof(Val) == 16, "32 Val per 512-byte std::deque block");
+
+template <typename RT, typename It>
+static Res generic_call(bool sel, std::vector<std::pair<It, It>>& seqs, Comp comp, long rank) {
+    Res r;
+    if (!sel) {
+        std::vector<It> offs(seqs.size());
+        const RT r_rank = static_cast<RT>(rank);
+        tlx::multisequence_partition(seqs.begin(), seqs.end(), r_rank, offs.begin(), comp);
+        for (size_t i = 0; i < seqs.size(); ++i) r.off.push_back(static_cast<long>(offs[i] - seqs[i].first));
+    }
+    else {
+        try {
+            const RT r_rank = static_cast<RT>(rank);
+            RT off = 0;
+            r.val = tlx::multisequence_selection<Val>(seqs.begin(), seqs.end(), r_rank, off, comp).v;
+            r.offset = static_cast<long>(off);
+        } catch (const std::exception&) { r.threw = true; }
+    }
+    return r;
+}
+
+static std::string show_res(bool sel, const Res& r) {
+    if (!sel) return "offsets " + vh::show_csv(r.off);
+    if (r.threw) return "threw";
+    return "value " + std::to_string(r.val) + " offset " + std::to_string(r.offset);
+}
+
+template <typename RT>
+static void alt_layouts(bool sel, const Store& st, Comp comp, long rank, const Res& want) {
+    if (!g_alt_layouts) return;
+    size_t m = st.size();
+    auto report = [&](const char* layout, const Res& got) {
+        bool same = sel ? (got.threw == want.threw && (got.threw || (got.val == want.val && got.offset == want.offset)))
+                        : got.off == want.off;
+        if (!same)
+            g_log.errors.push_back(std::string(sel ? "selection" : "partition") + " over " + layout + " runs gives " +
+                                   show_res(sel, got) + ", over vectors " + show_res(sel, want));
+    };
+    // order: the layouts whose stray reads stay inside the allocation first (an oracle message rather than a crash)
+    {   // (iii) strided iterator, guards at the even positions
+        std::vector<std::vector<Val>> u(m);
+        using It = StrideIt<Val>;
+        std::vector<std::pair<It, It>> seqs(m);
+        for (size_t i = 0; i < m; ++i) {
+            size_t len = st[i].size();
+            u[i].assign(2 * len + 1, mkval(0));
+            for (size_t j = 0; j <= len; ++j) u[i][2 * j] = mkval(j % 2 ? 1000000 : -1000000);
+            for (size_t p = 0; p < len; ++p) u[i][2 * p + 1] = st[i][p];
+            u[i].shrink_to_fit();
+            seqs[i] = std::make_pair(It(u[i].data() + 1), It(u[i].data() + 1 + 2 * len));
+        }
+        report("strided-iterator", generic_call<RT>(sel, seqs, comp, rank));
+    }
+    {   // (ii) std::deque runs across a block boundary
+        std::vector<std::deque<Val>> dq(m);
+        using It = std::deque<Val>::iterator;
+        std::vector<std::pair<It, It>> seqs(m);
+        for (size_t i = 0; i < m; ++i) {
+            size_t len = st[i].size();
+            size_t pad = (64 - (len / 2) % 32) % 32 + (i % 2 ? 32 : 0);     // boundary after about half of the run
+            for (size_t k = 0; k < pad; ++k) dq[i].push_back(mkval(-555));
+            for (auto& x : st[i]) dq[i].push_back(x);
+            dq[i].push_back(mkval(-556));
+            seqs[i] = std::make_pair(dq[i].begin() + (long)pad, dq[i].begin() + (long)(pad + len));
+        }
+        report("std::deque", generic_call<RT>(sel, seqs, comp, rank));
+    }
+    {   // (i) reverse iterators over adjacent slices of one backing vector
+        size_t total = 0;
+        for (auto& r : st) total += r.size();
+        std::vector<Val> back;
+        back.reserve(total);
+        std::vector<size_t> lo(m);
+        for (size_t i = 0; i < m; ++i) { lo[i] = back.size(); for (size_t p = st[i].size(); p-- > 0;) back.push_back(st[i][p]); }
+        back.shrink_to_fit();
+        using It = std::reverse_iterator<Val*>;
+        std::vector<std::pair<It, It>> seqs(m);
+        for (size_t i = 0; i < m; ++i) seqs[i] = std::make_pair(It(back.data() + lo[i] + st[i].size()), It(back.data() + lo[i]));
+        report("std::reverse_iterator", generic_call<RT>(sel, seqs, comp, rank));
+    }
+}
+
 template <typename RT>
 static Res run_part_t(Store& st, Comp comp, long rank) {
     size_t m = st.size();
@@ -251,6 +376,7 @@ static Res run_part_t(Store& st, Comp comp, long rank) {
     tlx::multisequence_partition(seqs.begin(), seqs.end(), r_rank, offs.begin(), comp);
     Res r;
     for (size_t i = 0; i < m; ++i) r.off.push_back(offs[i] - seqs[i].first);
+    alt_layouts<RT>(false, st, comp, rank, r);
     return r;
 }
 
@@ -288,6 +414,7 @@ static Res run_sel_t(Store& st, Comp comp, long rank) {
         g_log.errors.push_back("selection called with the same variable for rank and offset " +
                                (al.threw ? std::string("threw") : "returned value " + std::to_string(al.val) + " offset " + std::to_string(al.offset)) +
                                ", with separate variables value " + std::to_string(r.val) + " offset " + std::to_string(r.offset));
+    alt_layouts<RT>(true, st, comp, rank, r);
     return r;
 }
 
@@ -457,6 +584,7 @@ static int do_exh(const std::vector<std::string>& a) {
     std::vector<std::vector<ll>> pool;
     for (int l = 1; l <= lmax; ++l) all_runs(l, nvals, c, pool);
     g_log.on = false;
+    g_alt_layouts = false;
     long cases = 0, fails = 0, printed = 0, tuple_no = 0;
     for (int m = 1; m <= mmax; ++m) {
         std::vector<size_t> idx(m, 0);
